@@ -360,11 +360,23 @@ MAPS = [
 ]
 
 
+# chromosome labels are arbitrary sorted integers: consecutive, with gaps, mixed (used in EVERY seed, not rotated)
+LABELLINGS = [
+    {1: 1, 2: 2, 3: 3},          # consecutive
+    {1: 2, 2: 5, 3: 9},          # gaps everywhere
+    {1: 11, 2: 12, 3: 21},       # one consecutive step, one gap
+    {1: 1, 2: 3, 3: 7},
+    {1: 0, 2: 4, 3: 5},          # label 0, gap then consecutive
+]
+
+
 def map_case(ctx, cs, answers=None):
     from pybrops.popgen.gmap.StandardGeneticMap import StandardGeneticMap
     from pybrops.popgen.gmap.ExtendedGeneticMap import ExtendedGeneticMap
     from pybrops.popgen.gmat.DensePhasedGenotypeMatrix import DensePhasedGenotypeMatrix
     M = MAPS[cs["map"]]
+    lab = LABELLINGS[cs.get("labels", 0)]
+    M = dict(M, chr=[lab[c] for c in M["chr"]], mchr=[lab[c] for c in M["mchr"]])
     scale = [1.0, 0.5, 2.0][cs["seed"] % 3]
     gen = [g * scale for g in M["gen"]]
     mapfn = _import(f"pybrops.popgen.gmap.{cs['mapfn']}", cs["mapfn"])()
@@ -444,11 +456,13 @@ def map_case(ctx, cs, answers=None):
             key = res["prov"][0]
             dist[key] = dist.get(key, 0) + ch.weight
             ctx.outcome(digest(("map", key)))
-            ctx.nontriv(digest(("map", cs["map"], cs["mapfn"], cs["fn"], case["answers"])))
+            ctx.nontriv(digest(("map", cs["map"], cs["mapfn"], cs["fn"], cs.get("gmap"), cs.get("labels", 0), case["answers"])))
         else:
             complete = False
-    ctx.state(digest(("map", cs["map"], cs["mapfn"], cs["fn"], cs.get("gmap"))))
+    ctx.state(digest(("map", cs["map"], cs["mapfn"], cs["fn"], cs.get("gmap"), cs.get("labels", 0))))
     ctx.count("map:configs")
+    if len(st["starts"]) > 1 and any(b - a != 1 for a, b in zip(sorted(set(M["mchr"])), sorted(set(M["mchr"]))[1:])):
+        ctx.count(f"map:non-consecutive-chromosome-labels:{cs.get('gmap', 'Standard')}")
     if answers is not None or not complete:
         return
 
@@ -479,10 +493,17 @@ def map_cases(tier, seed):
     T = tier == "thorough"
     out = []
     for mi in range(len(MAPS)):
+        nchrom = len(set(MAPS[mi]["chr"]))
         for mf in ("HaldaneMapFunction", "KosambiMapFunction"):
             for fn in (("mat_meiosis", "dense_meiosis") if (T or mi < 2) else ("mat_meiosis",)):
-                out.append(dict(part="map", map=mi, mapfn=mf, fn=fn, seed=seed, _cost=2 ** len(MAPS[mi]["mchr"])))
-    out.append(dict(part="map", map=0, mapfn="HaldaneMapFunction", fn="dense_meiosis", gmap="Extended", seed=seed, _cost=64))
+                out.append(dict(part="map", map=mi, mapfn=mf, fn=fn, labels=0, seed=seed, _cost=2 ** len(MAPS[mi]["mchr"])))
+            # every chromosome labelling x both map classes (all seeds): boundaries must not depend on label values
+            for gk in ("Standard", "Extended"):
+                for li in range(len(LABELLINGS)):
+                    if (li == 0 and gk == "Standard") or (nchrom == 1 and li not in (1, 4)):
+                        continue
+                    out.append(dict(part="map", map=mi, mapfn=mf, fn="mat_meiosis", gmap=gk, labels=li, seed=seed,
+                                    _cost=2 ** len(MAPS[mi]["mchr"])))
     return out
 
 
@@ -677,7 +698,7 @@ def shards(tier, seed):
     out = []
     for ch in _chunks(gamete_cases(tier, seed), 64 if T else 32):
         out.append(("gamete", ch))
-    for ch in _chunks(map_cases(tier, seed), 8 if T else 4):
+    for ch in _chunks(map_cases(tier, seed), 12 if T else 8):
         out.append(("map", ch))
     big = sorted(cross_cases(tier, seed), key=lambda c: -c["_cost"])
     for ch in _chunks(big, 48 if T else 24):
@@ -723,6 +744,8 @@ def finalize(ctx, tier, seed):
     for proto in RM.PROTOS:
         assert c.get(f"cross:{proto}:configs", 0) > 0, proto
     assert c.get("map:configs", 0) > 0
+    for gk in ("Standard", "Extended"):
+        assert c.get(f"map:non-consecutive-chromosome-labels:{gk}", 0) > 0, gk
     for f in ("xoprob-0", "xoprob-half", "xoprob-1", "boundary-layer", "two-gametes", "two-chromosomes"):
         assert f in ctx.flags, f
     assert c.get("boundary:weight-0-answers-exercised", 0) > 0
